@@ -213,6 +213,10 @@ static var File_Open(var self, var filename, var access) {
 static void File_Close(var self) {
   struct File* f = self;
   
+  if (f->file is NULL) {
+    throw(IOError, "Cannot close file - no file open.");
+  }
+  
   int err = fclose(f->file);
   if (err != 0) {
     throw(IOError, "Failed to close file: %i", $I(err));
@@ -409,6 +413,10 @@ static var Process_Open(var self, var filename, var access) {
 
 static void Process_Close(var self) {
   struct Process* p = self;
+  
+  if (p->proc is NULL) {
+    throw(IOError, "Cannot close process - no process open.");
+  }
   
   int err = pclose(p->proc);
   if (err != 0) {
